@@ -106,6 +106,9 @@ def parse_cbmc_json(path):
     return results, msgs, status
 
 
+TIMINGS = []
+
+
 def run_split(cmd, tmo, workdir, be, ngroups):
     """Lists the obligations (--show-properties) and decides them in parallel cbmc processes, each restricted
     to a group by --property.  Returns (rc, results, msgs, seconds); rc None = some group timed out."""
@@ -138,6 +141,7 @@ def run_split(cmd, tmo, workdir, be, ngroups):
         for n in g:
             c += ["--property", n]
         rc, out, err, dt = run(c, tmo, stdout_path=outp)
+        TIMINGS.append((round(dt, 1), g[0], len(g)))
         if rc is None:
             return None, g, ["timeout on " + ",".join(g[:3])]
         results, msgs, status = parse_cbmc_json(outp)
